@@ -341,4 +341,56 @@ package otp
 //@   requires cfg != nil
 //@   modifies cfg
 //@   loop 1 invariant -1 <= rangeindex && rangeindex < len(toks)
+//@   loop 1 invariant cfg.Hash == old(cfg.Hash) && cfg.Digits == old(cfg.Digits) && cfg.Raw == old(cfg.Raw)
+//@   ensures[frame] cfg.Hash == old(cfg.Hash) && cfg.Digits == old(cfg.Digits) && cfg.Raw == old(cfg.Raw)
 //@   loop 1 decreases len(toks) - rangeindex
+
+// ---------------------------------------------------------------------------
+// suite registry (the table itself is checked entry by entry against the RFC 6287 naming scheme
+// by the ground obligations table:knownSuites[...] generated from the compiled initialiser)
+
+//@ macro samecfg(a, b) = a.Hash == b.Hash && a.Digits == b.Digits && a.Challenge == b.Challenge && a.IncludeCounter == b.IncludeCounter &&
+//@ |   a.IncludeChallenge == b.IncludeChallenge && a.IncludePassword == b.IncludePassword && a.IncludeSession == b.IncludeSession &&
+//@ |   a.IncludeTimestamp == b.IncludeTimestamp && a.PasswordHash == b.PasswordHash && a.TimeStep == b.TimeStep
+
+//@ func otp.IsKnownSuite(raw) (r)
+//@   ensures r <==> maphas(knownSuites, raw)
+
+//@ func otp.SuiteConfigFromRaws(rawSuite) (r)
+//@   ensures[found] maphas(knownSuites, rawSuite) ==> samecfg(r, mapget(knownSuites, rawSuite))
+//@   ensures[absent] !maphas(knownSuites, rawSuite) ==> r.Digits == 0 && !r.IncludeChallenge && r.Raw == ""
+
+//@ func otp.NewSuite(cfg) (s, err)
+//@   ensures[iff] err == nil <==> usable(cfg)
+//@   ensures[same] err == nil ==> dyntype(s, RawSuite) && samecfg(suitecfg(s), cfg) && suitecfg(s).Raw == cfg.Raw
+
+//@ func otp.NewRawSuite(raw) (s, err)
+//@   ensures[registered] maphas(knownSuites, raw) ==> (err == nil <==> usable(mapget(knownSuites, raw))) &&
+//@ |    (err == nil ==> dyntype(s, RawSuite) && samecfg(suitecfg(s), mapget(knownSuites, raw)) && suitecfg(s).Raw == raw)
+//@   ensures[parsed] !maphas(knownSuites, raw) && err == nil ==> dyntype(s, RawSuite) && usable(suitecfg(s)) && suitecfg(s).Raw == raw
+
+// ---------------------------------------------------------------------------
+// suite string parser (token level). part(s, sep, i) / nparts(s, sep) are strings.Split's vocabulary.
+
+//@ macro tgunit(g) = g[len(g)-1]
+//@ macro tgok(g) = len(g) >= 2 && isint(g[:len(g)-1]) && (tgunit(g) == 'S' || tgunit(g) == 'M' || tgunit(g) == 'H')
+//@ macro tgmult(g) = tgunit(g) == 'S' ? 1 : (tgunit(g) == 'M' ? 60 : 3600)
+//@ func otp.parseTimeGranularity(g) (r, err)
+//@   ensures[iff] err == nil <==> tgok(g)
+//@   ensures[val] err == nil ==> r == intval(g[:len(g)-1]) * tgmult(g)
+
+//@ macro hashname(h) = upper(h) == "SHA1" || upper(h) == "SHA256" || upper(h) == "SHA512"
+//@ macro hashof(h) = upper(h) == "SHA1" ? 0 : (upper(h) == "SHA256" ? 1 : 2)
+//@ macro cryptook(crypto) = hasprefix(upper(crypto), "HOTP-SHA") && nparts(crypto[5:], "-") == 2 &&
+//@ |   hashname(part(crypto[5:], "-", 0)) && isint(part(crypto[5:], "-", 1))
+//@ func otp.parseCryptoFunction(raw, crypto) (cfg, err)
+//@   ensures[iff] err == nil <==> cryptook(crypto)
+//@   ensures[val] err == nil ==> cfg.Hash == hashof(part(crypto[5:], "-", 0)) && cfg.Digits == intval(part(crypto[5:], "-", 1))
+//@   ensures[rest] cfg.Raw == "" && cfg.Challenge == 0 && !cfg.IncludeCounter && !cfg.IncludeChallenge && !cfg.IncludePassword &&
+//@ |   !cfg.IncludeSession && !cfg.IncludeTimestamp && cfg.PasswordHash == 0 && cfg.TimeStep == 0
+
+//@ func otp.parseRawSuite(raw) (cfg, err)
+//@   ensures[version] err == nil ==> nparts(raw, ":") >= 3 && part(raw, ":", 0) == "OCRA-1"
+//@   ensures[crypto] err == nil ==> cryptook(part(raw, ":", 1)) && cfg.Hash == hashof(part(part(raw, ":", 1)[5:], "-", 0)) &&
+//@ |   cfg.Digits == intval(part(part(raw, ":", 1)[5:], "-", 1))
+//@   ensures[raw] err == nil ==> cfg.Raw == raw && usable(cfg)
